@@ -607,6 +607,12 @@ def _execute(case, rand):
                         if undo_only_outside_protected(A, B, stop):
                             out.label('undo-outcome-differs-for-never-reachable-object')
                             break
+                        if stop is not None and ra and rb and ra[0] == 'applied' and rb[0] == 'refused':
+                            # "still undoable" is kept (the packed storage accepts what the unpacked copy refuses: the
+                            # record that said the object did not exist at the pack time is gone, DESIGN 10.2 obs. 11);
+                            # the two histories part here
+                            out.label('undo-accepted-by-packed-storage-only')
+                            break
                         out.fail((PROPERTY, 'undo-after-pack', 'outcome-differs'),
                                  'undo %r: packed storage %r, unpacked twin %r' % (op[1], ra and ra[0], rb and rb[0]))
                         break
@@ -618,6 +624,9 @@ def _execute(case, rand):
                     if ra != rb:
                         if undo_only_outside_protected(A, B, stop):
                             out.label('undo-outcome-differs-for-never-reachable-object')
+                            break
+                        if stop is not None and ra[0] == 'applied' and rb and rb[0] == 'refused':
+                            out.label('undo-accepted-by-packed-storage-only')
                             break
                         out.fail((PROPERTY, 'undo-after-pack', 'outcome-differs'),
                                  'undo %r: packed storage %r, unpacked twin %r' % (op[1], ra, rb))
